@@ -1,3 +1,612 @@
-From Coq Require Import ZArith QArith List Bool.
+(* Proofs about the EigenSolve model (Model/Eig.v) for property C11. *)
+From Coq Require Import ZArith QArith Reals List Bool Lia Lra Ring Field Permutation Sorted.
 From Pymoto Require Import Base.Num Base.QMat Model.Eig.
 Import ListNotations.
+
+(* ================================================================================================ *)
+(* 1. list / sorting facts (no algebra)                                                              *)
+Section SortFacts.
+  Context {K : Type}.
+  Variable leb : K -> K -> bool.
+  Variable key : nat -> K.
+  Hypothesis leb_total : forall a b, leb a b = true \/ leb b a = true.
+
+  Definition kle (i j : nat) : Prop := leb (key i) (key j) = true.
+
+  Lemma ins_perm i l : Permutation (ins leb key i l) (i :: l).
+  Proof.
+    induction l as [|j t IH]; cbn [ins]; auto.
+    destruct (leb (key j) (key i)); auto.
+    eapply perm_trans; [apply perm_skip, IH | apply perm_swap].
+  Qed.
+
+  Lemma ins_hdrel a i l : kle a i -> HdRel kle a l -> HdRel kle a (ins leb key i l).
+  Proof.
+    intros Hai Hl. destruct l as [|j t]; cbn [ins].
+    - constructor. exact Hai.
+    - destruct (leb (key j) (key i)); constructor; auto. inversion Hl; auto.
+  Qed.
+
+  Lemma ins_sorted i l : Sorted kle l -> Sorted kle (ins leb key i l).
+  Proof.
+    induction l as [|j t IH]; intros Hs; cbn [ins].
+    - repeat constructor.
+    - inversion Hs as [|? ? Hst Hhd]; subst.
+      destruct (leb (key j) (key i)) eqn:E.
+      + constructor; [apply IH; exact Hst | apply ins_hdrel; [exact E | exact Hhd]].
+      + constructor; [exact Hs | constructor].
+        destruct (leb_total (key i) (key j)) as [H1|H1]; [exact H1 | congruence].
+  Qed.
+
+  Lemma isort_from_spec idx acc : Sorted kle acc ->
+    Sorted kle (isort_from leb key idx acc) /\ Permutation (isort_from leb key idx acc) (rev idx ++ acc).
+  Proof.
+    revert acc. induction idx as [|i t IH]; intros acc Hs; cbn [isort_from fold_left].
+    - split; [exact Hs | apply Permutation_refl].
+    - destruct (IH (ins leb key i acc) (ins_sorted i acc Hs)) as [H1 H2]. split; [exact H1|].
+      eapply perm_trans; [exact H2|]. cbn [rev]. rewrite <- app_assoc. cbn [app].
+      apply Permutation_app_head. apply ins_perm.
+  Qed.
+End SortFacts.
+
+Lemma Sorted_map {A B : Type} (R : B -> B -> Prop) (f : A -> B) (l : list A) :
+  Sorted (fun a b => R (f a) (f b)) l -> Sorted R (map f l).
+Proof.
+  induction 1 as [|a l Hs IH Hhd]; cbn; constructor; auto.
+  destruct Hhd; cbn; constructor; auto.
+Qed.
+
+Lemma map_nth_seq {A : Type} (l : list A) d : map (fun i => nth i l d) (seq 0 (length l)) = l.
+Proof.
+  induction l as [|a l IH]; cbn; auto. f_equal. rewrite <- seq_shift, map_map. exact IH.
+Qed.
+
+Lemma forallb_ltb_spec (n : nat) (l : list nat) :
+  forallb (fun i => Nat.ltb i n) l = true -> forall j, (j < length l)%nat -> (nth j l O < n)%nat.
+Proof.
+  intros Hf j Hj. rewrite forallb_forall in Hf. apply Nat.ltb_lt. apply Hf. apply nth_In. exact Hj.
+Qed.
+
+(* ================================================================================================ *)
+(* 2. the normalisation loop in closed form (index reasoning only)                                   *)
+Section Loop.
+  Context {K : Type} `{Num K}.
+  Variable ops : EigOps K.
+  Local Notation mat := (@QMat.mat K).
+
+  Lemma normalise_S B n (Qm : mat) :
+    normalise ops B (S n) Qm = norm_step ops B (normalise ops B n Qm) n.
+  Proof.
+    unfold normalise. rewrite seq_S, fold_left_app. reflexivity.
+  Qed.
+
+  (* column j < nW is scaled by its own factor, computed from the ORIGINAL column (earlier iterations
+     only touched other columns); the assertion passed for every column; other columns are unchanged *)
+  Lemma normalise_spec B m nW (Qm Q' : mat) :
+    ncols_ok m Qm -> (nW <= m)%nat -> normalise ops B nW Qm = Ok Q' ->
+    length Q' = length Qm /\ ncols_ok m Q' /\
+    (forall j, (j < nW)%nat ->
+       knormable ops (bform B (getcol j Qm)) = true /\
+       getcol j Q' = vscaler (norm_factor ops B (getcol j Qm)) (getcol j Qm)) /\
+    (forall j, (nW <= j)%nat -> getcol j Q' = getcol j Qm).
+  Proof.
+    intros Hm. revert Q'. induction nW as [|n IH]; intros Q' Hn HQ.
+    - cbn in HQ. inversion HQ; subst. repeat split; auto. intros j Hj. lia.
+    - rewrite normalise_S in HQ. destruct (normalise ops B n Qm) as [Q1|e] eqn:E1; cbn [norm_step] in HQ; [|discriminate].
+      destruct (IH Q1 ltac:(lia) eq_refl) as (Hl & Hc & Hlt & Hge).
+      destruct (knormable ops (bform B (getcol n Q1))) eqn:Ek; [|discriminate].
+      inversion HQ; subst Q'; clear HQ.
+      rewrite (Hge n (le_n n)) in *.
+      repeat split.
+      + rewrite scale_col_length. exact Hl.
+      + apply scale_col_ncols. exact Hc.
+      + destruct (Nat.eq_dec j n) as [->|Hjn]; [exact Ek|]. apply Hlt. lia.
+      + destruct (Nat.eq_dec j n) as [->|Hjn].
+        * rewrite (getcol_scale_col_same n _ m Q1 Hc) by lia. rewrite (Hge n (le_n n)). reflexivity.
+        * rewrite getcol_scale_col_other by auto. apply Hlt. lia.
+      + intros j Hj. rewrite getcol_scale_col_other by lia. apply Hge. lia.
+  Qed.
+
+  (* the loop does not raise when every column passes the assertion *)
+  Lemma normalise_total B m nW (Qm : mat) :
+    ncols_ok m Qm -> (nW <= m)%nat ->
+    (forall j, (j < nW)%nat -> knormable ops (bform B (getcol j Qm)) = true) ->
+    exists Q', normalise ops B nW Qm = Ok Q'.
+  Proof.
+    intros Hm. induction nW as [|n IH]; intros Hn Hk.
+    - exists Qm. reflexivity.
+    - destruct IH as [Q1 E1]; [lia | intros j Hj; apply Hk; lia |].
+      rewrite normalise_S, E1. cbn [norm_step].
+      destruct (normalise_spec B m n Qm Q1 Hm ltac:(lia) E1) as (_ & _ & _ & Hge).
+      rewrite (Hge n (le_n n)), (Hk n ltac:(lia)). eauto.
+  Qed.
+
+  (* postprocess in closed form *)
+  Lemma postprocess_spec sf B (W : list K) (Qm : mat) W' Q' :
+    postprocess ops sf B W Qm = Ok (W', Q') ->
+    let isort := sf W Qm in
+    (forall j, (j < length isort)%nat -> (nth j isort O < length W)%nat) /\
+    W' = take isort W /\ length W' = length isort /\
+    length Q' = length Qm /\ ncols_ok (length isort) Q' /\
+    forall j, (j < length isort)%nat ->
+      let q := getcol (nth j isort O) Qm in
+      nth j W' nzero = nth (nth j isort O) W nzero /\
+      knormable ops (bform B q) = true /\
+      getcol j Q' = vscaler (norm_factor ops B q) q.
+  Proof.
+    unfold postprocess. intros HP isort. fold isort in HP.
+    destruct (forallb (fun i => Nat.ltb i (length W)) isort) eqn:Ef; cbn [negb] in HP; [|discriminate].
+    destruct (normalise ops B (length (take isort W)) (take_cols isort Qm)) as [Q2|e] eqn:En; [|discriminate].
+    inversion HP; subst W' Q'; clear HP.
+    rewrite take_length in En.
+    destruct (normalise_spec B (length isort) (length isort) _ Q2 (take_cols_ncols isort Qm) (le_n _) En)
+      as (Hl & Hc & Hlt & _).
+    repeat split; auto.
+    - apply forallb_ltb_spec. exact Ef.
+    - apply take_length.
+    - rewrite Hl. apply take_cols_length.
+    - apply nth_take. exact H0.
+    - destruct (Hlt j H0) as [Hk _]. rewrite getcol_take_cols in Hk by exact H0. exact Hk.
+    - destruct (Hlt j H0) as [_ Hg]. rewrite getcol_take_cols in Hg by exact H0. exact Hg.
+  Qed.
+
+  Lemma postprocess_total sf B (W : list K) (Qm : mat) :
+    (forall j, (j < length (sf W Qm))%nat -> (nth j (sf W Qm) O < length W)%nat) ->
+    (forall i, (i < length W)%nat -> knormable ops (bform B (getcol i Qm)) = true) ->
+    exists W' Q', postprocess ops sf B W Qm = Ok (W', Q').
+  Proof.
+    intros Hidx Hk. unfold postprocess.
+    assert (Ef : forallb (fun i => Nat.ltb i (length W)) (sf W Qm) = true).
+    { apply forallb_forall. intros i Hi. apply Nat.ltb_lt.
+      destruct (In_nth _ _ O Hi) as (j & Hj & <-). apply Hidx. exact Hj. }
+    rewrite Ef. cbn [negb]. rewrite take_length.
+    destruct (normalise_total B (length (sf W Qm)) (length (sf W Qm)) (take_cols (sf W Qm) Qm)
+                (take_cols_ncols _ Qm) (le_n _)) as [Q2 E2].
+    { intros j Hj. rewrite getcol_take_cols by exact Hj. apply Hk. apply Hidx. exact Hj. }
+    rewrite E2. eauto.
+  Qed.
+End Loop.
+
+(* ================================================================================================ *)
+(* 3. algebra: eigenpairs survive, the bilinear form becomes one                                     *)
+Section Algebra.
+  Context {K : Type} `{Num K}.
+  Variable ops : EigOps K.
+  Local Notation mat := (@QMat.mat K).
+  Hypothesis Rth : ring_theory (@nzero K _) none_ nadd nmul nsub nopp (@eq K).
+  Add Ring KringEigP : Rth.
+  Local Open Scope num_scope.
+
+  Lemma Bmul_vscaler B (q : list K) c : Bmul B (vscaler c q) = vscaler c (Bmul B q).
+  Proof. destruct B as [b|]; cbn [Bmul]; [apply (mv_vscaler Rth) | reflexivity]. Qed.
+
+  Lemma eigpair_vscaler (A : mat) B lam q c : eigpair A B lam q -> eigpair A B lam (vscaler c q).
+  Proof.
+    unfold eigpair. intros E. rewrite (mv_vscaler Rth), E, Bmul_vscaler. symmetry. apply (vscale_vscaler Rth).
+  Qed.
+
+  Lemma bform_vscaler B (q : list K) c : bform B (vscaler c q) = bform B q * c * c.
+  Proof.
+    unfold bform. rewrite Bmul_vscaler, (dot_vscaler_l Rth), (dot_vscaler_r Rth). ring.
+  Qed.
+
+  (* sorting + scaling of the columns preserve the oracle contract: for ANY sorting function that returns
+     valid indices and any scale factors *)
+  Theorem postprocess_keeps_eigenpairs sf (A : mat) B W (Qm : mat) W' Q' :
+    contract A B W Qm -> postprocess ops sf B W Qm = Ok (W', Q') -> contract A B W' Q'.
+  Proof.
+    intros [Hc He] HP. destruct (postprocess_spec ops sf B W Qm W' Q' HP) as (Hidx & HW & HlW & _ & Hnc & Hcol).
+    split.
+    - rewrite HlW. exact Hnc.
+    - intros j Hj. rewrite HlW in Hj. destruct (Hcol j Hj) as (Hw & _ & Hq).
+      rewrite Hw, Hq. apply eigpair_vscaler. apply He. apply Hidx. exact Hj.
+  Qed.
+
+  Lemma navg_vscaler (q : list K) c : navg (vscaler c q) = ndiv (nsum q * c) (nofZ (Z.of_nat (length q))).
+  Proof. unfold navg. rewrite (nsum_vscaler Rth), vscaler_length. reflexivity. Qed.
+
+  Section Field.
+    Hypothesis Fth : field_theory (@nzero K _) none_ nadd nmul nsub nopp ndiv ninv (@eq K).
+    Add Field KfieldEigP : Fth.
+
+    Lemma sq_nonzero (s v : K) : s * s = v -> v <> nzero -> s <> nzero.
+    Proof. intros Hs Hv E. apply Hv. rewrite <- Hs, E. ring. Qed.
+
+    (* (sf q)^T B (sf q) = 1  for sf = sgn / s with s^2 = q^T B q != 0, sgn = +-1 *)
+    Theorem normalised_vector B (q : list K) (s sgn : K) :
+      s * s = bform B q -> bform B q <> nzero -> (sgn = none_ \/ sgn = nopp none_) ->
+      bform B (vscaler (ndiv sgn s) q) = none_.
+    Proof.
+      intros Hs Hv Hsgn. pose proof (sq_nonzero s _ Hs Hv) as Hs0.
+      rewrite bform_vscaler, <- Hs. destruct Hsgn as [-> | ->]; field; exact Hs0.
+    Qed.
+
+    Lemma scale_nonzero (c : K) (q : list K) : c <> nzero -> is_zero_vec (vscaler c q) -> is_zero_vec q.
+    Proof.
+      unfold is_zero_vec, vscaler. intros Hc Hz. rewrite Forall_map in Hz. revert Hz. apply Forall_impl.
+      intros x Hx. assert (E : x = x * c * ninv c) by (field; exact Hc). rewrite E, Hx. ring.
+    Qed.
+
+    Lemma factor_nonzero (s sgn : K) : s <> nzero -> (sgn = none_ \/ sgn = nopp none_) -> ndiv sgn s <> nzero.
+    Proof.
+      intros Hs Hsgn E.
+      assert (E1 : ndiv sgn s * (sgn * s) = none_) by (destruct Hsgn as [-> | ->]; field; exact Hs).
+      rewrite E in E1. apply (F_1_neq_0 Fth). rewrite <- E1. ring.
+    Qed.
+
+    (* contract of np.sqrt on the values that pass the assertion *)
+    Definition sqrt_contract : Prop :=
+      forall v, knormable ops v = true -> ksqrt ops v * ksqrt ops v = v /\ v <> nzero.
+
+    Lemma norm_factor_sgn B (q : list K) :
+      exists sgn, (sgn = none_ \/ sgn = nopp none_) /\ norm_factor ops B q = ndiv sgn (ksqrt ops (bform B q)).
+    Proof.
+      unfold norm_factor. destruct (kre_nonneg ops (navg q)); eexists; split; eauto.
+    Qed.
+
+    Theorem postprocess_normalised sf B W (Qm : mat) W' Q' :
+      sqrt_contract -> postprocess ops sf B W Qm = Ok (W', Q') ->
+      forall j, (j < length W')%nat -> bform B (getcol j Q') = none_.
+    Proof.
+      intros Hsq HP j Hj. destruct (postprocess_spec ops sf B W Qm W' Q' HP) as (_ & _ & HlW & _ & _ & Hcol).
+      rewrite HlW in Hj. destruct (Hcol j Hj) as (_ & Hk & Hq). rewrite Hq.
+      destruct (Hsq _ Hk) as [Hs Hv]. destruct (norm_factor_sgn B (getcol (nth j (sf W Qm) O) Qm)) as (sgn & Hsgn & ->).
+      apply normalised_vector; auto.
+    Qed.
+
+    (* genuine eigenvectors stay genuine: a non-zero raw column gives a non-zero output column *)
+    Theorem postprocess_keeps_nonzero sf B W (Qm : mat) W' Q' :
+      sqrt_contract -> postprocess ops sf B W Qm = Ok (W', Q') ->
+      forall j, (j < length W')%nat ->
+        is_zero_vec (getcol j Q') -> is_zero_vec (getcol (nth j (sf W Qm) O) Qm).
+    Proof.
+      intros Hsq HP j Hj. destruct (postprocess_spec ops sf B W Qm W' Q' HP) as (_ & _ & HlW & _ & _ & Hcol).
+      rewrite HlW in Hj. destruct (Hcol j Hj) as (_ & Hk & Hq). rewrite Hq.
+      destruct (Hsq _ Hk) as [Hs Hv]. destruct (norm_factor_sgn B (getcol (nth j (sf W Qm) O) Qm)) as (sgn & Hsgn & ->).
+      apply scale_nonzero. apply factor_nonzero; auto. eapply sq_nonzero; eauto.
+    Qed.
+  End Field.
+End Algebra.
+
+(* ================================================================================================ *)
+(* 4. ordering and completeness                                                                      *)
+Section Order.
+  Context {K : Type} `{Num K}.
+  Variable ops : EigOps K.
+  Local Notation mat := (@QMat.mat K).
+  Hypothesis leb_total : forall a b, kleb ops a b = true \/ kleb ops b a = true.
+
+  Lemma argsort_spec (keys : list K) :
+    Permutation (argsort ops keys) (seq 0 (length keys)) /\
+    Sorted (fun a b => kleb ops a b = true) (take (argsort ops keys) keys).
+  Proof.
+    unfold argsort.
+    destruct (isort_from_spec (kleb ops) (fun j => nth j keys nzero) leb_total (seq 0 (length keys)) [] (Sorted_nil _))
+      as [Hs Hp].
+    split.
+    - eapply perm_trans; [exact Hp|]. rewrite app_nil_r. apply Permutation_sym, Permutation_rev.
+    - unfold take. apply Sorted_map. exact Hs.
+  Qed.
+
+  (* default sorting function: the returned eigenvalues ascend in the order used by np.argsort *)
+  Theorem postprocess_sorted B W (Qm : mat) W' Q' :
+    postprocess ops (sort_default ops) B W Qm = Ok (W', Q') ->
+    Sorted (fun a b => kleb ops a b = true) W'.
+  Proof.
+    intros HP. destruct (postprocess_spec ops _ B W Qm W' Q' HP) as (_ & -> & _).
+    unfold sort_default. apply argsort_spec.
+  Qed.
+
+  Lemma take_perm (isort : list nat) (W : list K) :
+    Permutation isort (seq 0 (length W)) -> Permutation (take isort W) W.
+  Proof.
+    intros Hp. unfold take. rewrite <- (map_nth_seq W nzero) at 2. apply Permutation_map. exact Hp.
+  Qed.
+
+  (* any sorting function that returns a permutation (in particular the default): nothing is lost or
+     duplicated -- with the n pairs LAPACK returns the output is the complete spectrum *)
+  Theorem postprocess_complete sf B W (Qm : mat) W' Q' :
+    Permutation (sf W Qm) (seq 0 (length W)) ->
+    postprocess ops sf B W Qm = Ok (W', Q') ->
+    length W' = length W /\ Permutation W' W /\
+    forall j, (j < length W)%nat ->
+      let i := nth j (sf W Qm) O in
+      (i < length W)%nat /\ nth j W' nzero = nth i W nzero /\
+      getcol j Q' = vscaler (norm_factor ops B (getcol i Qm)) (getcol i Qm).
+  Proof.
+    intros Hp HP. destruct (postprocess_spec ops sf B W Qm W' Q' HP) as (Hidx & HW & HlW & _ & _ & Hcol).
+    assert (Hl : length (sf W Qm) = length W) by (rewrite (Permutation_length Hp); apply seq_length).
+    split; [lia|]. split; [rewrite HW; apply take_perm; exact Hp|].
+    intros j Hj i. rewrite <- Hl in Hj. destruct (Hcol j Hj) as (Hw & _ & Hq).
+    split; [apply Hidx; exact Hj|]. split; [exact Hw | exact Hq].
+  Qed.
+
+  Theorem default_sort_is_permutation (W : list K) (Qm : mat) :
+    Permutation (sort_default ops W Qm) (seq 0 (length W)).
+  Proof. unfold sort_default. apply argsort_spec. Qed.
+End Order.
+
+(* ================================================================================================ *)
+(* 5. the reals: sign rule, and the real symmetric case end to end (true sqrt, no oracle for it)      *)
+Section Reals.
+  Local Open Scope R_scope.
+  Local Notation matR := (@QMat.mat R).
+
+  Lemma Rleb_true a b : Rleb a b = true <-> a <= b.
+  Proof. unfold Rleb. destruct (Rle_dec a b); split; intros; auto; discriminate. Qed.
+
+  Lemma Rleb_total a b : Rleb a b = true \/ Rleb b a = true.
+  Proof. rewrite !Rleb_true. lra. Qed.
+
+  Lemma knormable_R v : knormable opsR v = true <-> 0 < v.
+  Proof. cbn. destruct (Rlt_dec 0 v); split; intros; auto; discriminate. Qed.
+
+  Lemma sqrt_contract_R : sqrt_contract opsR.
+  Proof.
+    intros v Hv. apply knormable_R in Hv. cbn. split; [apply sqrt_sqrt; lra | lra].
+  Qed.
+
+  (* the sign rule: after scaling, the mean entry is non-negative *)
+  Lemma sign_vector (B : option matR) (q : list R) :
+    0 < bform B q -> 0 <= navg (vscaler (norm_factor opsR B q) q).
+  Proof.
+    intros Hv. rewrite (navg_vscaler num_ring_R). unfold norm_factor. cbn [ksqrt kre_nonneg opsR].
+    pose proof (sqrt_lt_R0 _ Hv) as Hs.
+    set (s := sqrt (bform B q)) in *. unfold navg. cbn [ndiv nmul nsum NumR nofZ none_ nopp].
+    set (n := IZR (Z.of_nat (length q))).
+    set (S := @nsum R NumR q).
+    destruct (Rleb 0 (@ndiv R NumR S n)) eqn:E.
+    - apply Rleb_true in E. cbn [ndiv NumR] in E.
+      replace (S * (1 / s) / n) with ((S / n) * / s) by (field; lra).
+      apply Rmult_le_pos; [exact E | left; apply Rinv_0_lt_compat; exact Hs].
+    - assert (E' : ~ 0 <= S / n) by (intros X; apply Rleb_true in X; cbn [ndiv NumR] in E; congruence).
+      replace (S * (- (1) / s) / n) with ((- (S / n)) * / s) by (field; lra).
+      apply Rmult_le_pos; [lra | left; apply Rinv_0_lt_compat; exact Hs].
+  Qed.
+
+  Theorem postprocess_sign sf (B : option matR) W (Qm : matR) W' Q' :
+    postprocess opsR sf B W Qm = Ok (W', Q') ->
+    forall j, (j < length W')%nat -> 0 <= navg (getcol j Q').
+  Proof.
+    intros HP j Hj. destruct (postprocess_spec opsR sf B W Qm W' Q' HP) as (_ & _ & HlW & _ & _ & Hcol).
+    rewrite HlW in Hj. destruct (Hcol j Hj) as (_ & Hk & Hq). rewrite Hq.
+    apply sign_vector. apply knormable_R. exact Hk.
+  Qed.
+
+  Lemma Sorted_Rleb (l : list R) : Sorted (fun a b => Rleb a b = true) l -> Sorted Rle l.
+  Proof.
+    induction 1 as [|a l Hs IH Hhd]; constructor; auto.
+    destruct Hhd; constructor. apply Rleb_true. assumption.
+  Qed.
+
+  (* real symmetric (generalised) problem, default sorting: all clauses at once *)
+  Theorem real_symmetric_response (A : matR) (B : option matR) W (Qm : matR) W' Q' :
+    contract A B W Qm ->
+    postprocess opsR (sort_default opsR) B W Qm = Ok (W', Q') ->
+    contract A B W' Q' /\
+    (forall j, (j < length W')%nat -> bform B (getcol j Q') = 1) /\
+    Sorted Rle W' /\
+    (forall j, (j < length W')%nat -> 0 <= navg (getcol j Q')) /\
+    length W' = length W /\ Permutation W' W.
+  Proof.
+    intros Hc HP.
+    split; [eapply (postprocess_keeps_eigenpairs opsR num_ring_R); eauto|].
+    split; [eapply (postprocess_normalised opsR num_ring_R num_field_R); eauto using sqrt_contract_R|].
+    split; [apply Sorted_Rleb; eapply (postprocess_sorted opsR Rleb_total); eauto|].
+    split; [eapply postprocess_sign; eauto|].
+    destruct (postprocess_complete opsR (sort_default opsR) B W Qm W' Q'
+                (default_sort_is_permutation opsR Rleb_total W Qm) HP) as (H1 & H2 & _).
+    split; assumption.
+  Qed.
+
+  (* ... and the module does return (no AssertionError) when B is positive on the raw vectors *)
+  Theorem real_symmetric_total (B : option matR) W (Qm : matR) :
+    (forall i, (i < length W)%nat -> 0 < bform B (getcol i Qm)) ->
+    exists W' Q', postprocess opsR (sort_default opsR) B W Qm = Ok (W', Q').
+  Proof.
+    intros Hpos. apply postprocess_total.
+    - intros j Hj.
+      pose proof (default_sort_is_permutation opsR Rleb_total W Qm) as Hp.
+      assert (Hin : In (nth j (sort_default opsR W Qm) O) (seq 0 (length W))).
+      { eapply Permutation_in; [exact Hp | apply nth_In; exact Hj]. }
+      apply in_seq in Hin. lia.
+    - intros i Hi. apply knormable_R. apply Hpos. exact Hi.
+  Qed.
+End Reals.
+
+(* ================================================================================================ *)
+(* 6. dispatch and the state machine of _sparse_eigs                                                 *)
+Section Machine.
+  Context {K : Type} `{Num K}.
+  Variable ops : EigOps K.
+  Variable auto_solver : @QMat.mat K -> bool -> nat.
+  Local Notation mat := (@QMat.mat K).
+
+  Definition pencil_sparse (p : @pencil K) : bool :=
+    pAsp p && match pB p with None => true | Some _ => pBsp p end.
+  Definition herm_flag (st : @estate K) (p : @pencil K) : bool :=
+    match sHerm st with
+    | Some h => h
+    | None => is_hermitian_mat ops (pAsp p) (pA p) &&
+              match pB p with None => true | Some b => is_hermitian_mat ops (pBsp p) b end
+    end.
+
+  (* which library routine is called, on which matrices, and that the flag is cached *)
+  Theorem dispatch st p st' c :
+    response ops auto_solver st p = (st', Ok c) ->
+    cFun c = (if pencil_sparse p then (if herm_flag st p then EIGSH else EIGS)
+              else (if herm_flag st p then EIGH else EIG)) /\
+    cA c = pA p /\ sHerm st' = Some (herm_flag st p) /\
+    (pencil_sparse p = false -> cM c = pB p /\ cOPinv c = None).
+  Proof.
+    unfold response. fold (herm_flag st p). fold (pencil_sparse p).
+    destruct (pencil_sparse p) eqn:Es.
+    - unfold sparse_eigs.
+      destruct (truthy_sigma_zero ops match sSigma st with Some s => s | None => nzero end);
+        destruct (sAinv st) as [sv|]; destruct (herm_flag st p); cbn;
+        try (destruct (negb (Nat.eqb (sMode st) 0)); cbn);
+        intros E; inversion E; subst; cbn; repeat split; try discriminate.
+    - intros E; inversion E; subst; cbn. destruct (herm_flag st p); repeat split; auto.
+  Qed.
+
+  Lemma step_keeps_flag st o h : sHerm st = Some h -> sHerm (fst (step ops auto_solver st o)) = Some h.
+  Proof.
+    intros Hh. destruct o as [p|s]; cbn [step]; [|reflexivity].
+    destruct (response ops auto_solver st p) as [st' c] eqn:E. cbn [fst].
+    unfold response in E. rewrite Hh in E.
+    destruct (pAsp p && match pB p with Some _ => pBsp p | None => true end).
+    - unfold sparse_eigs in E.
+      destruct (truthy_sigma_zero ops match sSigma st with Some s => s | None => nzero end);
+        destruct (sAinv st) as [sv|]; destruct h; cbn in E;
+        try (destruct (negb (Nat.eqb (sMode st) 0)); cbn in E);
+        inversion E; subst; reflexivity.
+    - inversion E; subst; reflexivity.
+  Qed.
+
+  (* the Hermitian flag detected (or given) at the first call is used for every later call *)
+  Theorem flag_sticky st os h : sHerm st = Some h -> sHerm (run_state ops auto_solver st os) = Some h.
+  Proof.
+    revert st. induction os as [|o t IH]; intros st Hh; cbn [run_state]; auto.
+    apply IH. apply step_keeps_flag. exact Hh.
+  Qed.
+
+  (* invariant: once a solver object exists, do_solve is set (it is never cleared) *)
+  Definition inv (st : @estate K) : Prop := sAinv st = None \/ sDoSolve st = true.
+
+  Lemma prepare_inv h nm sg md : inv (prepare h nm sg md).
+  Proof. left. reflexivity. Qed.
+
+  (* what a call made in state st on pencil p must look like *)
+  Definition call_current (st : @estate K) (p : @pencil K) (c : @libcall K) : Prop :=
+    if pencil_sparse p then
+      exists kind,
+        cOPinv c = Some (kind, Some (shifted_of ops (sSigma st) p)) /\
+        cK c = Some (match sNmodes st with None => 6%Z | Some k => k end) /\
+        cSigma c = Some (match sSigma st with None => nzero | Some s => s end) /\
+        cM c = (if truthy_sigma_zero ops (match sSigma st with None => nzero | Some s => s end) then pB p
+                else Some (match pB p with None => eye (length (pA p)) | Some b => b end))
+    else cOPinv c = None /\ cM c = pB p.
+
+  Lemma response_current st p st' c :
+    inv st -> response ops auto_solver st p = (st', Ok c) -> call_current st p c /\ inv st'.
+  Proof.
+    intros Hinv. unfold response, call_current. fold (pencil_sparse p).
+    destruct (pencil_sparse p) eqn:Es.
+    - unfold sparse_eigs, shifted_of.
+      set (sg := match sSigma st with Some s => s | None => nzero end).
+      destruct (truthy_sigma_zero ops sg) eqn:Ez.
+      + destruct (sAinv st) as [[kd mm]|] eqn:Ea.
+        * destruct Hinv as [Hn|Hd]; [rewrite Ea in Hn; discriminate|]. rewrite Hd. cbn.
+          destruct (match sHerm st with Some h => h | None => _ end); cbn;
+            try (destruct (negb (Nat.eqb (sMode st) 0)); cbn);
+            intros E; inversion E; subst; cbn; (split; [eexists; repeat split; reflexivity | right; reflexivity]).
+        * cbn.
+          destruct (match sHerm st with Some h => h | None => _ end); cbn;
+            try (destruct (negb (Nat.eqb (sMode st) 0)); cbn);
+            intros E; inversion E; subst; cbn; (split; [eexists; repeat split; reflexivity | right; reflexivity]).
+      + destruct (sAinv st) as [[kd mm]|] eqn:Ea; cbn;
+          destruct (match sHerm st with Some h => h | None => _ end); cbn;
+            try (destruct (negb (Nat.eqb (sMode st) 0)); cbn);
+            intros E; inversion E; subst; cbn; (split; [eexists; repeat split; reflexivity | right; reflexivity]).
+    - intros E; inversion E; subst; cbn. split; [split; reflexivity|]. exact Hinv.
+  Qed.
+
+  Lemma response_inv st p : inv st -> inv (fst (response ops auto_solver st p)).
+  Proof.
+    intros Hinv. destruct (response ops auto_solver st p) as [st' [c|e]] eqn:E; cbn [fst].
+    - eapply response_current; eauto.
+    - (* NotImplementedError: the state was updated before the raise *)
+      unfold response in E.
+      destruct (pAsp p && match pB p with Some _ => pBsp p | None => true end); [|inversion E].
+      unfold sparse_eigs in E.
+      set (sg := match sSigma st with Some s => s | None => nzero end) in *.
+      destruct (truthy_sigma_zero ops sg) eqn:Ez.
+      + destruct (sAinv st) as [[kd mm]|] eqn:Ea.
+        * destruct Hinv as [Hn|Hd]; [rewrite Ea in Hn; discriminate|]. rewrite Hd in E. cbn in E.
+          destruct (match sHerm st with Some h => h | None => _ end); cbn in E; [inversion E|].
+          destruct (negb (Nat.eqb (sMode st) 0)); cbn in E; inversion E; subst; right; reflexivity.
+        * cbn in E.
+          destruct (match sHerm st with Some h => h | None => _ end); cbn in E; [inversion E|].
+          destruct (negb (Nat.eqb (sMode st) 0)); cbn in E; inversion E; subst; right; reflexivity.
+      + destruct (sAinv st) as [[kd mm]|] eqn:Ea; cbn in E;
+          (destruct (match sHerm st with Some h => h | None => _ end); cbn in E; [inversion E|]);
+          destruct (negb (Nat.eqb (sMode st) 0)); cbn in E; inversion E; subst; right; reflexivity.
+  Qed.
+
+  (* every call of a history is "current" *)
+  Fixpoint history_current (st : @estate K) (os : list (@op K)) : Prop :=
+    match os with
+    | [] => True
+    | o :: t =>
+        match o with
+        | OpCall p => match snd (response ops auto_solver st p) with
+                      | Ok c => call_current st p c
+                      | Err _ => True
+                      end
+        | OpSetSigma _ => True
+        end /\ history_current (fst (step ops auto_solver st o)) t
+    end.
+
+  Lemma history_current_inv st os : inv st -> history_current st os.
+  Proof.
+    revert st. induction os as [|o t IH]; intros st Hinv; cbn [history_current]; auto.
+    split.
+    - destruct o as [p|s]; auto.
+      destruct (response ops auto_solver st p) as [st' [c|e]] eqn:E; cbn [snd]; auto.
+      eapply response_current; eauto.
+    - apply IH. destruct o as [p|s]; cbn [step].
+      + pose proof (response_inv st p Hinv) as Hi. destruct (response ops auto_solver st p); exact Hi.
+      + cbn [fst]. destruct Hinv as [Hn|Hd]; [left | right]; assumption.
+  Qed.
+
+  (* by induction over ANY sequence of calls with changing A, B and sigma: the shift-invert operator handed
+     to ARPACK at call k is the factorisation of the k-th A - sigma B; k, sigma, M are the current ones *)
+  Theorem factorisation_current h nm sg md os : history_current (prepare h nm sg md) os.
+  Proof. apply history_current_inv. apply prepare_inv. Qed.
+End Machine.
+
+(* ================================================================================================ *)
+(* 7. non-vacuity: concrete instances                                                                *)
+Section Examples.
+  Local Open Scope R_scope.
+  (* A = diag(2, 1), raw library output in descending order with a negative vector *)
+  Definition exA : @QMat.mat R := [[2; 0]; [0; 1]].
+  Definition exW : list R := [2; 1].
+  Definition exQ : @QMat.mat R := [[-1; 0]; [0; 2]].
+
+  Lemma ex_contract : contract exA None exW exQ.
+  Proof.
+    split.
+    - repeat constructor.
+    - intros i Hi. cbn in Hi. unfold eigpair, exA, exW, exQ.
+      destruct i as [|[|i]]; [| |lia]; cbn; repeat f_equal; ring.
+  Qed.
+
+  Lemma ex_positive : forall i, (i < length exW)%nat -> 0 < bform None (getcol i exQ).
+  Proof.
+    intros i Hi. cbn in Hi. destruct i as [|[|i]]; [| |lia]; cbn; lra.
+  Qed.
+
+  Lemma ex_runs : exists W' Q', postprocess opsR (sort_default opsR) None exW exQ = Ok (W', Q') /\
+    contract exA None W' Q' /\ Sorted Rle W' /\ Permutation W' exW.
+  Proof.
+    destruct (real_symmetric_total None exW exQ ex_positive) as (W' & Q' & HP).
+    exists W', Q'. split; [exact HP|].
+    destruct (real_symmetric_response exA None exW exQ W' Q' ex_contract HP) as (H1 & _ & H3 & _ & _ & H6).
+    auto.
+  Qed.
+End Examples.
+
+(* a three-call history evaluated on the rational instance: default sigma, then m.sigma = 2, changing A *)
+Definition exP1 : @pencil Q := Build_pencil [[2; 1]; [1; 3]]%Q true None false.
+Definition exP2 : @pencil Q := Build_pencil [[5; 1]; [1; 4]]%Q true None false.
+Definition ex_history : list (@op Q) := [OpCall exP1; OpCall exP2; OpSetSigma (Some 2%Q); OpCall exP1].
+Definition ex_opinvs : list (option (@QMat.mat Q)) :=
+  map (fun c => match c with
+                | Some (Ok c) => match @cOPinv Q c with Some (_, m) => m | None => None end
+                | _ => None
+                end)
+      (@run Q NumQd opsQ (fun _ _ => O) (prepare None None None 0) ex_history).
+Lemma ex_opinvs_value :
+  ex_opinvs = [Some [[2; 1]; [1; 3]]; Some [[5; 1]; [1; 4]]; None; Some [[0; 1]; [1; 1]]]%Q.
+Proof. vm_compute. reflexivity. Qed.
